@@ -143,3 +143,232 @@ def evaluate_paths(tier):
         o["expected"] = exp
         outs.append(Outcome(dict(c, what="module-path"), corr, ok, kf=kf, detail=o))
     return outs
+
+
+# ---- round 7: the event payload site reached through the real analysis when the payload VARIABLE is bound more than
+# ---- once in one function (parameter / annotated let / struct literal / T::ctor() / copy of a typed variable, then
+# ---- lets whose initialiser the event parser cannot type: method call, free call, `?`, block, if; same or other type)
+RB_KIND = {"User": "struct", "Summary": "struct", "Status": "enum", "String": "std", "u32": "prim", "bool": "prim"}
+RB_TYPES = list(RB_KIND)
+RB_LIT = {"User": "User { id: 1 }", "Summary": "Summary { n: 2 }"}
+RB_FIRST = ["param", "param-ref", "annot", "struct", "ctor"]
+RB_TYPABLE = ["annot", "struct", "ctor", "copy"]              # the event parser learns the type of the new binding
+RB_SAME = ["clone", "to-owned", "keep", "try", "block", "if"]   # un-typable initialiser, same type as before
+RB_CHANGE = ["conv", "try-conv"]                                # un-typable initialiser of ANOTHER type
+RB_VARS = ["user", "payload", "item", "current"]
+RB_FORMS = ["v", "&v", "v.clone()"]
+RB_WRAPS = ["none", "if"]
+
+
+def _sn(t):
+    return t.lower()
+
+
+def rb_prelude():
+    s = H
+    s += "#[derive(Serialize, Deserialize, Clone, Default, PartialEq)]\npub struct User { pub id: u32 }\n\n"
+    s += "#[derive(Serialize, Deserialize, Clone, Default, PartialEq)]\npub struct Summary { pub n: u32 }\n\n"
+    s += "#[derive(Serialize, Deserialize, Clone, Default, PartialEq)]\npub enum Status { #[default] Active, Idle }\n\n"
+    for t in RB_TYPES:
+        s += "fn make_%s() -> %s { Default::default() }\nfn keep_%s(x: %s) -> %s { x }\nfn try_%s(x: %s) -> Result<%s, String> { Ok(x) }\n" % (
+            _sn(t), t, _sn(t), t, t, _sn(t), t, t)
+        for q in RB_TYPES:
+            if q != t:
+                s += "fn conv_%s_%s(_x: &%s) -> %s { Default::default() }\nfn try_conv_%s_%s(_x: &%s) -> Result<%s, String> { Ok(Default::default()) }\n" % (
+                    _sn(t), _sn(q), t, q, _sn(t), _sn(q), t, q)
+    # every project type is reachable from a command, so that it is declared in types.ts
+    s += "\n#[tauri::command]\npub fn reg(a: User, b: Summary, c: Status) -> String { todo!() }\n\n"
+    return s
+
+
+def rb_first_ok(kind, t):
+    return kind in ("param", "param-ref", "annot") or (kind == "struct" and RB_KIND[t] == "struct") or (kind == "ctor" and RB_KIND[t] != "prim")
+
+
+def rb_steps_after(p):
+    """all (kind, type) re-bindings possible after a binding of type p"""
+    out = [(k, p) for k in RB_SAME]
+    out += [(k, q) for k in RB_CHANGE for q in RB_TYPES if q != p]
+    out += [(k, q) for k in RB_TYPABLE for q in RB_TYPES if k in ("annot", "copy") or rb_first_ok(k, q)]
+    return out
+
+
+def rb_stmt(v, kind, prev, t):
+    if kind == "annot":
+        if prev is None:
+            return "let %s: %s = make_%s();" % (v, t, _sn(t))
+        return "let %s: %s = %s;" % (v, t, "keep_%s(%s.clone())" % (_sn(t), v) if prev == t else "conv_%s_%s(&%s)" % (_sn(prev), _sn(t), v))
+    if kind == "struct":
+        return "let %s = %s;" % (v, RB_LIT[t])
+    if kind == "ctor":
+        return "let %s = %s::%s();" % (v, t, "new" if t == "String" else "default")
+    if kind == "copy":
+        return "let %s = other_%s;" % (v, _sn(t))
+    if kind == "clone":
+        return "let %s = %s.clone();" % (v, v)
+    if kind == "to-owned":
+        return "let %s = %s.to_owned();" % (v, v)
+    if kind == "keep":
+        return "let %s = keep_%s(%s.clone());" % (v, _sn(t), v)
+    if kind == "try":
+        return "let %s = try_%s(%s.clone())?;" % (v, _sn(t), v)
+    if kind == "block":
+        return "let %s = { %s.clone() };" % (v, v)
+    if kind == "if":
+        return "let %s = if flag { %s.clone() } else { make_%s() };" % (v, v, _sn(t))
+    if kind == "conv":
+        return "let %s = conv_%s_%s(&%s);" % (v, _sn(prev), _sn(t), v)
+    if kind == "try-conv":
+        return "let %s = try_conv_%s_%s(&%s)?;" % (v, _sn(prev), _sn(t), v)
+    raise ValueError(kind)
+
+
+def rb_function(c, fname, ev):
+    """Rust source of one command whose payload variable has the binding history c['steps'] and which emits after the
+    c['emit_after']-th binding"""
+    v, steps = c["var"], c["steps"]
+    params = ["app: tauri::AppHandle", "flag: bool"]
+    body, prev = [], None
+    for i, (kind, t) in enumerate(steps):
+        if i == 0 and kind in ("param", "param-ref"):
+            params.append("%s: %s%s" % (v, "&" if kind == "param-ref" else "", t))
+        else:
+            if kind == "copy" and ("other_%s: %s" % (_sn(t), t)) not in params:
+                params.append("other_%s: %s" % (_sn(t), t))
+            body.append(rb_stmt(v, kind, prev, t))
+        if c["emit_after"] == i + 1:
+            body.append("app.emit(\"%s\", %s).map_err(|e| e.to_string())?;" % (ev, c["form"].replace("v", v, 1) if c["form"] != "v.clone()" else v + ".clone()"))
+        prev = t
+    if c["wrap"] == "if":
+        keep = 0 if steps[0][0] in ("param", "param-ref") else 1
+        body = body[:keep] + ["if flag {"] + ["    " + x for x in body[keep:]] + ["}"]
+    return "#[tauri::command]\npub fn %s(%s) -> Result<(), String> {\n%s    Ok(())\n}\n\n" % (
+        fname, ", ".join(params), "".join("    " + x + "\n" for x in body))
+
+
+def rb_real_type(c):
+    """the type the emit really sends: that of the most recent binding before it"""
+    return c["steps"][c["emit_after"] - 1][1]
+
+
+def rb_head_type(c):
+    """what HEAD's event parser has in its function-wide symbol table at the emit (event_parser.rs:136 extract_local_binding:
+    an initialiser that cannot be typed leaves the table alone)"""
+    t = None
+    for kind, ty in c["steps"][:c["emit_after"]]:
+        if kind in RB_FIRST or kind in RB_TYPABLE:
+            t = ty
+    return t
+
+
+def rb_in_stale_class(c):
+    """narrow class of finding C05-10: since the last binding whose type the parser can see, the variable was re-bound by
+    an un-typable initialiser of another type"""
+    return rb_real_type(c) != rb_head_type(c)
+
+
+def rb_cases(rng, n_random):
+    cases = []
+    i = 0
+
+    def mk(steps, emit_after):
+        nonlocal i
+        i += 1
+        return {"what": "payload-rebinding", "var": RB_VARS[i % len(RB_VARS)], "steps": [list(s) for s in steps], "emit_after": emit_after,
+                "form": RB_FORMS[(i // 2) % len(RB_FORMS)], "wrap": RB_WRAPS[(i // 3) % 2], "mode": ("none", "zod")[i % 2]}
+    # every history of two bindings, emit after the second; every fourth one also with the emit BEFORE the re-binding
+    for p in RB_TYPES:
+        for f in RB_FIRST:
+            if not rb_first_ok(f, p):
+                continue
+            for j, st in enumerate(rb_steps_after(p)):
+                cases.append(mk([(f, p), st], 2))
+                if j % 4 == 0:
+                    cases.append(mk([(f, p), st], 1))
+    # random histories of three or four bindings, emit anywhere
+    for _ in range(n_random):
+        p = rng.choice(RB_TYPES)
+        steps = [(rng.choice([f for f in RB_FIRST if rb_first_ok(f, p)]), p)]
+        for _ in range(rng.randint(2, 3)):
+            pool = rb_steps_after(steps[-1][1])
+            # un-typable steps are the rarer half of the pool: draw the side first
+            side = [s for s in pool if (s[0] in RB_TYPABLE) == (rng.random() < 0.35)]
+            steps.append(rng.choice(side))
+        cases.append(mk(steps, rng.randint(1, len(steps))))
+    return cases
+
+
+def rb_corpus():
+    """witnesses of the recorded findings of this stream first, then corpus/C05/rebinding.json"""
+    out = [dict(e["witness"]["project"]) for e in vlib.load_known_findings("C05")
+           if (e.get("witness", {}).get("project") or {}).get("what") == "payload-rebinding"]
+    p = os.path.join(vlib.VERIF, "corpus", "C05", "rebinding.json")
+    return out + ([dict(w["project"]) for w in json.load(open(p))] if os.path.exists(p) else [])
+
+
+def rb_generate(batch):
+    mode, cases = batch
+    src = rb_prelude() + "".join(rb_function(c, "job%d" % k, "ev%d" % k) for k, c in enumerate(cases))
+    rc, log, fs = generate({"lib.rs": src}, mode)
+    ev, ty = fs.get("events.ts", ""), fs.get("types.ts", "")
+    declared = sorted(set(re.findall(r"export (?:interface|type|const) (\w+)", ty)) & set(RB_TYPES))
+    out = []
+    for k, c in enumerate(cases):
+        m = re.search(r"listen<(.*)>\('ev%d'," % k, ev)
+        h = re.search(r"export async function onEv%d\(\n  handler: \(payload: (.*)\) => void\n" % k, ev)
+        out.append({"exit": rc, "listener_type": m.group(1) if m else None, "handler_type": h.group(1) if h else None,
+                    "declared": declared, "log_tail": log[-200:] if rc else "",
+                    "rust": rb_function(c, "job%d" % k, "ev%d" % k)})
+    return out
+
+
+def evaluate_rebinding(cases, batch_size=60):
+    """implementation: the real CLI on projects of batch_size commands (one event each). Faithful expectation: the Coq model's
+    event-site text (C05Emit.emit_ts) of the type HEAD's symbol table holds. Oracle: c05_ok (extracted) of the listener type
+    against the type the emit really sends, or `unknown`; a project type named there must be declared in types.ts."""
+    from tools.vlib import sx
+    from tools.props import c05_types as T
+    by_mode = {"none": [], "zod": []}
+    for i, c in enumerate(cases):
+        by_mode[c["mode"]].append(i)
+    batches = [(m, idx[k:k + batch_size]) for m, idx in by_mode.items() for k in range(0, len(idx), batch_size)]
+    obs = [None] * len(cases)
+    for (m, idx), res in zip(batches, vlib.pmap(rb_generate, [(m, [cases[i] for i in idx]) for m, idx in batches])):
+        for i, o in zip(idx, res):
+            obs[i] = o
+    slot = {"none": 4, "zod": 9}
+
+    def judge(tys_texts):
+        sexps = []
+        for (t, text, mode) in tys_texts:
+            texts = [""] * 10
+            texts[slot[mode]] = text or ""
+            sexps.append(sx([T.sx_ty(T.parse(t)), [], texts]))
+        return [r[5][slot[mode]] for r, (_, _, mode) in zip(vlib.run_runner("c05-emit", sexps), tys_texts)]
+    real = judge([(rb_real_type(c), o["listener_type"], c["mode"]) for c, o in zip(cases, obs)])
+    head = judge([(rb_head_type(c), o["listener_type"], c["mode"]) for c, o in zip(cases, obs)])
+    outs = []
+    for c, o, r, h in zip(cases, obs, real, head):
+        lt = o["listener_type"]
+        named = RB_KIND[rb_real_type(c)] in ("struct", "enum")
+        ok = (o["exit"] == 0 and lt is not None and lt == o["handler_type"] and
+              (lt == "unknown" or (r[1] == "true" and (not named or rb_real_type(c) in o["declared"]))))
+        corr = o["exit"] == 0 and lt == h[0] and lt == o["handler_type"]
+        o = dict(o, sends=rb_real_type(c), expected=r[3] + " or unknown", reads_as=r[2], model=h[0], symbol_table_type=rb_head_type(c))
+        if ok:
+            o.pop("log_tail", None)
+        outs.append(Outcome(c, corr, ok, kf="C05-10" if rb_in_stale_class(c) else None, detail=o))
+    return outs
+
+
+def rebinding_distribution(cases):
+    d = {"histories": len(cases), "length": {}, "emit_before_last_binding": 0, "untypable_last_same_type": 0, "stale_class": 0, "kinds": {}}
+    for c in cases:
+        d["length"][str(len(c["steps"]))] = d["length"].get(str(len(c["steps"])), 0) + 1
+        d["emit_before_last_binding"] += c["emit_after"] < len(c["steps"])
+        k = c["steps"][c["emit_after"] - 1][0]
+        d["untypable_last_same_type"] += k in RB_SAME
+        d["stale_class"] += rb_in_stale_class(c)
+        for kind, _ in c["steps"]:
+            d["kinds"][kind] = d["kinds"].get(kind, 0) + 1
+    return d
